@@ -73,6 +73,25 @@ class UpstreamError(Exception):
         self.args = ("upstream failure", 17)
 
 
+class BusinessError(Exception):
+    """the documented custom-error recipe: not a library error, but an exception that knows how to coerce itself (it has a
+    `coerce_value` method and neither `path` nor `locations` attributes)"""
+
+    def __init__(self, text, code):
+        super().__init__(text)
+        self.text = text
+        self.code = code
+
+    def coerce_value(self, *_args, path=None, locations=None, **_kwargs):
+        locs = []
+        try:
+            for loc in locations or []:
+                locs.append(loc.collect_value())
+        except (AttributeError, TypeError):
+            pass
+        return {"message": self.text, "path": path, "locations": locs, "extensions": {"code": self.code}}
+
+
 def forget(name):
     """memory hygiene only: drop a schema name that no later history will use (private registry attribute, best effort)"""
     try:
@@ -119,6 +138,8 @@ def make_resolver(fq):
                 err.extensions["code"] = "FORBIDDEN"
                 err.extensions["who"] = getattr(scn, "label", None) or "someone"
                 raise err
+            if fault == "raise_coercible":
+                raise BusinessError("business rule at %s" % (list(path),), "BIZ")
             if fault == "raise_msgattr":
                 raise UpstreamError({"code": "not_found", "where": list(path)})
             if fault == "return_exc":
